@@ -414,3 +414,44 @@ Qed.
 Example env_case_nonvacuous :
   Forall2 same_up_to_case [bs "fabio_proxy_ADDR=:1"; bs "x=y"] [bs "FABIO_PROXY_addr=:1"; bs "X=y"].
 Proof. repeat constructor. Qed.
+
+(* ---------- an ill-formed typed value: the verdict depends on the source (finding F-C15-3) ----------
+   flagset.go:134 and :145 call f.Set(fl.Name, val) and drop the error, while flag.Parse fails on
+   the same raw value: from the command line the value is rejected, from the environment or
+   the file Value.Set is called, fails, the option holds whatever the failed Set left (the zero
+   value for the stdlib flag types) and is counted as set. *)
+Definition maxconn_flags : list flagdecl := [{| fname := bs "proxy.maxconn"; fbool := false |}].
+Definition abc_is_bad (_ raw : str) : bool := beq raw (bs "abc").
+
+Lemma illformed_value_source_dependent :
+  parse_flags maxconn_flags abc_is_bad [bs "-proxy.maxconn=abc"] [] fabio_prefixes None = Err 1 /\
+  parse_flags maxconn_flags abc_is_bad [] [bs "FABIO_PROXY_MAXCONN=abc"] fabio_prefixes None
+  = Ok [{| r_name := bs "proxy.maxconn"; r_set := true; r_calls := [bs "abc"]; r_src := SrcEnv 0 |}] /\
+  parse_flags maxconn_flags abc_is_bad [] [] fabio_prefixes (Some [(bs "proxy.maxconn", bs "abc")])
+  = Ok [{| r_name := bs "proxy.maxconn"; r_set := true; r_calls := [bs "abc"]; r_src := SrcProps |}].
+Proof. vm_compute. repeat split. Qed.
+
+(* outside that region (the command line accepts every value it carries) all sources agree:
+   this is [source_equivalence], whose hypothesis [parse_args = Ok calls] says exactly that.
+   In particular when no value is ill-formed at all, flag.Parse fails only on syntax: *)
+Lemma parse_args_bad_irrelevant flags args : forall n calls,
+  (length args <= n)%nat ->
+  forall bad, (forall name raw, bad name raw = false) ->
+  parse_args flags bad args calls = parse_args flags (fun _ _ => false) args calls.
+Proof.
+  intros n. revert args. induction n as [|n IH]; intros args calls Hl bad Hb.
+  - destruct args; [reflexivity | cbn in Hl; lia].
+  - destruct args as [|s rest]; [reflexivity|]. cbn [length] in Hl. cbn [parse_args].
+    destruct s as [|c0 [|c1 s2]]; try reflexivity.
+    destruct (negb (c0 =? 45)); [reflexivity|].
+    destruct ((c1 =? 45) && match s2 with [] => true | _ => false end); [reflexivity|].
+    destruct (if c1 =? 45 then s2 else c1 :: s2) as [|n0 after]; [reflexivity|].
+    destruct ((n0 =? 45) || (n0 =? 61)); [reflexivity|].
+    destruct (split_flag_value (n0 :: after)) as [name val].
+    destruct (lookup_flag flags name) as [fl|]; [|reflexivity].
+    destruct (fbool fl).
+    + rewrite Hb. apply IH; auto; lia.
+    + destruct val as [v|].
+      * rewrite Hb. apply IH; auto; lia.
+      * destruct rest as [|v rest']; [reflexivity|]. rewrite Hb. apply IH; auto. cbn [length] in Hl. lia.
+Qed.
